@@ -106,6 +106,7 @@ fn partials() -> Vec<Partial> {
         p("0.0.0-0", Some(0), Some(0), Some(0), vec![Id::N(0)]), p("1.0.0-alpha", Some(1), Some(0), Some(0), vec![a("alpha")]),
         p("2.0.0-rc.1", Some(2), Some(0), Some(0), vec![a("rc"), Id::N(1)]), p("0.0.0-beta", Some(0), Some(0), Some(0), vec![a("beta")]),
         p("1.x.3", Some(1), None, Some(3), vec![]), p("1.2.x-beta", Some(1), Some(2), None, vec![a("beta")]),
+        p("1.2.3-1", Some(1), Some(2), Some(3), vec![Id::N(1)]), p("1.2.*-0", Some(1), Some(2), None, vec![Id::N(0)]),
     ]
 }
 fn full(p: &Partial) -> K { K { ma: p.ma.unwrap_or(0), mi: p.mi.unwrap_or(0), pa: p.pa.unwrap_or(0), pre: p.pre.clone() } }
@@ -246,12 +247,12 @@ fn grid(level: u32) -> Vec<Case> {
     // surrounding blanks, unparseable tokens dropped -- each must read like the canonical spelling
     {
         let find = |t: &str| ss.iter().find(|s| s.text == t).map(|s| s.cs.clone());
-        let variants: [(&str, &str); 36] = [
+        let variants: [(&str, &str); 41] = [
             (">= 1.2.3", ">=1.2.3"), (">=v1.2.3", ">=1.2.3"), ("v1.2.3", "1.2.3"), ("=v1.2.3", "=1.2.3"), ("01.02.03", "1.2.3"), (">=01.02.03", ">=1.2.3"),
             ("1.2.3beta", "1.2.3-beta"), (">=1.2.3beta", ">=1.2.3-beta"), ("<1.2.3beta", "<1.2.3-beta"), ("~ 1.2.3", "~1.2.3"), ("^ 1.2.3", "^1.2.3"), ("~> 1.2.3", "~>1.2.3"),
             ("  1.2.3  ", "1.2.3"), ("v 1.2.3", "1.2.3"), ("^v1.2", "^1.2"), ("~v1.2", "~1.2"), ("<=v2", "<=2"), ("> 1.0.0", ">1.0.0"), ("< 2.0.0", "<2.0.0"), ("<= 1.2.3", "<=1.2.3"),
             ("= 1.2.3", "=1.2.3"), (">=1.2.3-beta", ">=1.2.3-beta"), ("^01.02", "^1.2"), ("~01.2.3", "~1.2.3"), ("1.X", "1.x"), ("1.*", "1.x"), ("1.2.*", "1.2.x"), ("1.2.X", "1.2.x"),
-            ("X", "x"), (">=1.X", ">=1.x"), ("<1.2.X", "<1.2.x"), ("^1.2.X", "^1.2"), ("~1.X", "~1.x"), ("=1.*", "=1.x"), ("1.2.3+build", "1.2.3"), (">=1.2.3+b.1", ">=1.2.3"),
+            ("X", "x"), (">=1.X", ">=1.x"), (">=1.2.3-01", ">=1.2.3-1"), ("<1.2.3-01", "<1.2.3-1"), ("1.2.3-01", "1.2.3-1"), ("^1.2.3-01", "^1.2.3-1"), ("~1.2.3-001", "~1.2.3-1"), ("<1.2.X", "<1.2.x"), ("^1.2.X", "^1.2"), ("~1.X", "~1.x"), ("=1.*", "=1.x"), ("1.2.3+build", "1.2.3"), (">=1.2.3+b.1", ">=1.2.3"),
         ];
         for (text, canon) in variants.iter() {
             if let Some(cs) = find(canon) {
@@ -271,7 +272,7 @@ fn grid(level: u32) -> Vec<Case> {
 fn versions() -> Vec<Version> {
     let mut out = vec![];
     for core in ["0.0.0", "0.0.1", "0.0.2", "0.1.0", "0.1.2", "0.2.0", "0.5.0", "1.0.0", "1.0.1", "1.2.0", "1.2.2", "1.2.3", "1.2.4", "1.3.0", "1.9.9", "2.0.0", "2.0.1", "2.1.0", "2.1.3", "3.0.0", "3.1.0", "4.0.0", "4.0.1", "5.0.0"] {
-        for pre in ["", "-0", "-alpha", "-alpha.0", "-beta", "-beta.1", "-rc.1", "-rc.2"] {
+        for pre in ["", "-0", "-1", "-2", "-5", "-alpha", "-alpha.0", "-beta", "-beta.1", "-rc.1", "-rc.2"] {
             out.push(Version::parse(format!("{}{}", core, pre)).unwrap());
         }
     }
@@ -320,7 +321,8 @@ fn hash_of(v: &Version) -> u64 { let mut h = DefaultHasher::new(); v.hash(&mut h
 fn order_versions() -> Vec<Version> {
     let mut out = vec![];
     for core in ["0.0.0", "0.0.1", "0.1.0", "1.0.0", "1.0.1", "1.1.0", "1.1.1", "2.0.0", "2.0.1", "2.3.0", "10.0.0"] {
-        for pre in ["", "-0", "-1", "-2", "-10", "-a", "-alpha", "-alpha.1", "-alpha.1.0", "-alpha.beta", "-beta", "-beta.2", "-beta.11", "-rc.1", "-rc.1a", "-rc.2", "-rc.10", "--", "-7", "-A", "-a-", "-1a", "-alpha.1a"] {
+        for pre in ["", "-0", "-1", "-2", "-10", "-a", "-alpha", "-alpha.1", "-alpha.1.0", "-alpha.beta", "-beta", "-beta.2", "-beta.11", "-rc.1", "-rc.1a", "-rc.2", "-rc.10", "--", "-7", "-A", "-a-", "-1a", "-alpha.1a",
+                    "--1", "-rc.-", "-rc.0-", "-01", "-rc.01", "-rc.900719925474100", "-rc.1000000000000000", "-rc.18446744073709551615", "-rc.18446744073709551616", "-900719925474099", "-900719925474100"] {
             for build in ["", "+b", "+build.5"] {
                 if let Ok(v) = Version::parse(format!("{}{}{}", core, pre, build)) { out.push(v); }
             }
@@ -534,7 +536,10 @@ fn check_c06_strings() {
         all.push("1".repeat(n)); all.push(format!("1.2.3-{}", "a".repeat(n))); all.push(format!("{}\u{e9}", "a".repeat(n))); all.push(format!("1.2.3\n{}", "b".repeat(n)));
         all.push(format!("{} || {}", ">=1.2.3 ".repeat(n / 8), "x".repeat(n)));
     }
-    for t in ["1.2.900719925474100", "1.2.99999999999999999999999", ">=1.2.99999999999999999999999", "1.2.3\n4.5.6", "\n\n1.2", "1.2.3-\u{e9}", ">=\u{e9}", "\u{1F600}", "1.2.3 - ", " - 1.2.3", "1.2.3 - 2.0.0 - 3"] { all.push(t.to_string()); }
+    for t in ["18446744073709551615", "^18446744073709551615", "~1.18446744073709551615", ">1.18446744073709551615", "1 - 18446744073709551615", "=18446744073709551615", ">0.0.18446744073709551615", "<=18446744073709551615",
+              "18446744073709551614.18446744073709551615.0", "900719925474099", "^900719925474099", "~900719925474099.900719925474099", ">900719925474099", "1 - 900719925474099", ">0.0.900719925474099",
+              "|", "a|b", "1.2.3 | 2.x", "1.x ||| 2.x", "| |", "1.2.3 |", "|| 1.2.3", "1.2.3 ||", "||", " || ", "1.2.3-", "1.2.3+", "1.2.3-a..b", "1.2.3.4", "1.2.3 foo",
+              "1.2.900719925474100", "1.2.99999999999999999999999", ">=1.2.99999999999999999999999", "1.2.3\n4.5.6", "\n\n1.2", "1.2.3-\u{e9}", ">=\u{e9}", "\u{1F600}", "1.2.3 - ", " - 1.2.3", "1.2.3 - 2.0.0 - 3"] { all.push(t.to_string()); }
     for t in &all {
         let r = catch_unwind(AssertUnwindSafe(|| {
             match Version::parse(t) { Ok(v) => { let _ = v.to_string(); } Err(e) => touch_error(&e) }
